@@ -182,6 +182,10 @@ struct Check {
   std::function<Inst(const std::string &)> decode;
   // evaluate the property on one instance; empty result = holds
   std::function<Verdicts(const Inst &, Ctx &)> eval;
+  // optional: calls executed once at the start of every worker process, worker k runs primers[k % size] (an empty function =
+  // no primer). On code without hidden state they cannot influence any verdict; they only vary the history of the process so
+  // that state leaking from one call to the next (static buffers, caches) has something to leak from.
+  std::vector<std::function<void()>> primers;
   double instanceTimeout = 20.0;  // seconds; x10 on the solitary re-run
   double deadline = 3000.0;       // global, seconds
   bool replayBeforeReport = true;
@@ -270,6 +274,14 @@ inline std::string classifyCrash(const std::string &err, int status) {
       for (char &ch : k) if (ch == ' ') ch = '-';
       kind = "tsan-" + k;
     }
+    if (kind.empty() && l.rfind("==", 0) == 0) {
+      static const char *vgKinds[][2] = {{"depends on uninitialised value", "memcheck-uninitialised-value"}, {"Use of uninitialised value", "memcheck-uninitialised-value"},
+                                         {"Invalid read", "memcheck-invalid-read"}, {"Invalid write", "memcheck-invalid-write"},
+                                         {"points to uninitialised byte", "memcheck-uninitialised-syscall-param"}, {"Invalid free", "memcheck-invalid-free"},
+                                         {"Mismatched free", "memcheck-mismatched-free"}, {"overlap in mem", "memcheck-overlap"}};
+      for (auto &vk : vgKinds)
+        if (l.find(vk[0]) != std::string::npos) { kind = vk[1]; break; }
+    }
     if (kind.empty() && (p = l.find("runtime error: ")) != std::string::npos) {
       std::string k = l.substr(p + 15);
       // keep the first 4 words, drop numbers
@@ -311,11 +323,14 @@ inline std::string classifyCrash(const std::string &err, int status) {
     }
   }
   // first frame inside the library
-  if (func.empty() || kind == "glibcxx-assert" || kind.rfind("asan", 0) == 0 || kind.rfind("signal", 0) == 0 || kind.rfind("tsan", 0) == 0) {
+  if (func.empty() || kind == "glibcxx-assert" || kind.rfind("asan", 0) == 0 || kind.rfind("signal", 0) == 0 || kind.rfind("tsan", 0) == 0 || kind.rfind("memcheck", 0) == 0) {
     std::string f2;
     for (const std::string &l : lines) {
       std::string f;
-      if (l.find("    #") != std::string::npos || l.find(" in ") != std::string::npos) {
+      if (l.rfind("==", 0) == 0 && (l.find("   at 0x") != std::string::npos || l.find("   by 0x") != std::string::npos)) {
+        size_t p = l.find(": ");
+        if (p != std::string::npos) f = shortFunc(l.substr(p + 2));
+      } else if (l.find("    #") != std::string::npos || l.find(" in ") != std::string::npos) {
         size_t p = l.find(" in ");
         if (p != std::string::npos) f = shortFunc(l.substr(p + 4));
       }
@@ -441,6 +456,11 @@ std::vector<Violation> evalIsolated(const Opts &o, const Check<Inst> &c, const I
   if (killed) out.push_back({"hang", enc, "did not finish within " + std::to_string(limit) + " s"});
   else if (!done) {
     std::string err = readFile(errPath);
+    if (const char *vgp = getenv("VERIF_VALGRIND_LOG_PREFIX")) {
+      std::string vgLog = std::string(vgp) + std::to_string(pid) + ".log";
+      err += readFile(vgLog);
+      unlink(vgLog.c_str());
+    }
     out.push_back({classifyCrash(err, status), enc, err.substr(0, 1500)});
   }
   unlink(resPath.c_str());
@@ -501,6 +521,10 @@ int runCheck(const Opts &o, Check<Inst> &c) {
       ctx.nt = fopen(ntPath(k).c_str(), "ab");
       long long idx = 0, from = resume[k];
       bool stop = false;
+      if (!c.primers.empty() && c.primers[k % c.primers.size()]) {
+        shm[k].start = now_s();
+        try { c.primers[k % c.primers.size()](); } catch (...) {}
+      }
       long long sampleStride = 997 + (o.seed % 89);
       c.enumerate([&](const Inst &inst) {
         long long i = idx++;
@@ -550,7 +574,8 @@ int runCheck(const Opts &o, Check<Inst> &c) {
   std::vector<Violation> crashViol;
   for (int k = 0; k < n; ++k) spawn(k);
   int live = n;
-  int crashes = 0;
+  int crashes = 0, hangs = 0, confirmedHangs = 0;
+  const int maxHangs = 6;
   while (live > 0) {
     bool progressed = false;
     for (int k = 0; k < n; ++k) {
@@ -575,19 +600,29 @@ int runCheck(const Opts &o, Check<Inst> &c) {
       // crash or hang while evaluating shm[k].idx
       long long idx = shm[k].idx;
       std::string err = readFile(errPath(k));
+      if (const char *vgp = getenv("VERIF_VALGRIND_LOG_PREFIX")) {
+        std::string vgLog = std::string(vgp) + std::to_string(pids[k]) + ".log";
+        err += readFile(vgLog);
+        unlink(vgLog.c_str());
+      }
       ++crashes;
       Inst inst;
       if (idx >= 0 && instanceAt(idx, inst)) {
         std::string cls;
         std::string msg;
         if (hung) {
-          auto again = evalIsolated(o, c, inst, c.instanceTimeout * 10, "hang" + std::to_string(k));
-          bool stillHangs = false;
-          for (auto &v : again) {
-            if (v.cls == "hang") stillHangs = true;
-            crashViol.push_back(v);
+          // a timed-out instance is re-run alone with ten times the limit before it is called a hang; once one instance has
+          // been confirmed that way, further time-outs of this pass are taken as hangs directly, and after maxHangs the pass stops
+          ++hangs;
+          if (confirmedHangs < 1) {
+            auto again = evalIsolated(o, c, inst, c.instanceTimeout * 10, "hang" + std::to_string(k));
+            for (auto &v : again) {
+              if (v.cls == "hang") ++confirmedHangs;
+              crashViol.push_back(v);
+            }
+          } else {
+            crashViol.push_back({"hang", c.encode(inst), "did not finish within " + std::to_string(c.instanceTimeout) + " s (earlier time-outs of this pass were confirmed with a tenfold limit)"});
           }
-          (void)stillHangs;
         } else {
           cls = classifyCrash(err, status);
           crashViol.push_back({cls, c.encode(inst), err.substr(0, 1500)});
@@ -599,11 +634,19 @@ int runCheck(const Opts &o, Check<Inst> &c) {
         --live;
         continue;
       }
-      if (crashes > 48) {
+      if (crashes > 48 || hangs >= maxHangs) {
+        // enough evidence: stop the whole pass (what was covered so far is reported, exhaustive = false)
         R.exhaustive = false;
-        R.harnessError = R.harnessError.empty() ? "" : R.harnessError;
         pids[k] = -1;
         --live;
+        for (int j = 0; j < n; ++j)
+          if (pids[j] > 0) {
+            kill(pids[j], SIGKILL);
+            int st2;
+            waitpid(pids[j], &st2, 0);
+            pids[j] = -1;
+            --live;
+          }
         continue;
       }
       spawn(k);
@@ -644,7 +687,7 @@ int runCheck(const Opts &o, Check<Inst> &c) {
   }
   for (auto &v : crashViol) { R.violations.push_back(v); cc[v.cls]++; }
   R.classCounts = cc;
-  if (crashes > 48) R.exhaustive = false;
+  if (crashes > 48 || hangs >= maxHangs) R.exhaustive = false;
   R.counters["worker_crashes_or_hangs"] = crashes;
   // distinct non-trivial
   {
@@ -677,6 +720,7 @@ int runCheck(const Opts &o, Check<Inst> &c) {
     int replays = 0;
     for (auto &v : R.violations) {
       if (doneCls.count(v.cls) || replays >= 12) continue;
+      if (v.cls == "hang") continue;  // already confirmed by the solitary re-run with the tenfold limit
       doneCls.insert(v.cls);
       ++replays;
       Inst inst = c.decode(v.inst);
